@@ -6,7 +6,7 @@ from hypothesis import strategies as st
 
 from .. import gen
 from ..common import TOL, graph_from_json, inconclusive, invalid_config, ok, violation
-from ..models import COVER_CLASSES, CYC_CLASSES, MIN_CLASSES, ROUTE_KEY, CONSTRAINT_KEY, run_model, rerun_presolve_off, timed_out
+from ..models import COVER_CLASSES, CYC_CLASSES, MIN_CLASSES, ROUTE_KEY, CONSTRAINT_KEY, ConstraintSpec, run_model, rerun_presolve_off, timed_out
 from ..oracle.routes import check_route
 
 ID = "C10"
@@ -65,32 +65,26 @@ def _objective(cls, r):
 
 
 def _containment(case, r, G, length_attr=None):
-    """(i): every constraint of the case is contained to >= coverage in one returned route."""
-    cls = case["cls"]
-    kw = case["kw"]
-    cyc = cls in CYC_CLASSES
-    node_mode = kw.get("flow_attr_origin", kw.get("cover_type", "edge")) == "node"
-    ckey = CONSTRAINT_KEY[cls]
-    cons = kw.get(ckey, [])
-    if not cons:
+    """(i): every constraint of the case is contained to >= coverage (edge count or length) in one returned route."""
+    spec = ConstraintSpec(case, G)
+    if not spec:
         return None
-    cov = kw.get("subset_constraints_coverage" if cyc else "subpath_constraints_coverage", 1.0)
-    cov_len = kw.get("subpath_constraints_coverage_length")
-    routes = [x for x in r.solution[ROUTE_KEY[cls]] if x]
-    sets = [set(rt) if node_mode else set(zip(rt[:-1], rt[1:])) for rt in routes]
-    for c in cons:
-        cc = [(x if node_mode else tuple(x)) for x in c]
-        if cyc:
-            cc = list(dict.fromkeys(cc))
-        if cov_len is not None and not node_mode:
-            lens = [G.edges[e].get(length_attr, 1) for e in cc]
-            need = sum(lens) * cov_len
-            okc = any(sum(l for e, l in zip(cc, lens) if e in s) >= need - 1e-9 for s in sets)
-        else:
-            need = len(cc) * cov
-            okc = any(sum(1 for x in cc if x in s) >= need - 1e-9 for s in sets)
-        if not okc:
-            return f"constraint {c} (coverage {cov_len if cov_len is not None else cov}) is contained in no single returned route {routes}"
+    routes = [x for x in r.solution[ROUTE_KEY[case["cls"]]] if x]
+    um = spec.unmet(routes)
+    if um is not None:
+        return f"constraint {um} (coverage {spec.coverage}{' by length' if spec.by_length else ''}) is contained in no single returned route {routes}"
+    # cover models: every non-ignored element must still be covered, whatever the constraints say
+    if case["cls"] in COVER_CLASSES:
+        kw = case["kw"]
+        ign = kw.get("elements_to_ignore", [])
+        ignored = set(ign) if spec.node_mode else {tuple(e) for e in ign}
+        required = [v for v in G.nodes() if v not in ignored] if spec.node_mode else [e for e in G.edges() if e not in ignored]
+        covered = set()
+        for rt in routes:
+            covered |= spec.elements_of(rt)
+        miss = [x for x in required if x not in covered]
+        if miss:
+            return f"cover model leaves {miss} uncovered (routes {routes})"
     return None
 
 
@@ -134,11 +128,12 @@ def run_case(case, tier="quick"):
         # give every edge a small integer length and turn the edge coverage into a length coverage
         if node_mode or not base["kw"].get(ckey):
             return invalid_config("length coverage needs edge-mode constraints")
-        for i, e in enumerate(base["graph"]["edges"]):
-            e[2]["len"] = 1 + (pick[i % len(pick)] + i) % 4
-        base["kw"]["length_attr"] = "len"
-        base["kw"].pop("subpath_constraints_coverage", None)
-        base["kw"]["subpath_constraints_coverage_length"] = [1.0, 0.75, 0.5, 0.34][pick[0] % 4]
+        if base["kw"].get("subpath_constraints_coverage_length") is None:
+            for i, e in enumerate(base["graph"]["edges"]):
+                e[2]["len"] = 1 + (pick[i % len(pick)] + i) % 4
+            base["kw"]["length_attr"] = "len"
+            base["kw"].pop("subpath_constraints_coverage", None)
+            base["kw"]["subpath_constraints_coverage_length"] = [1.0, 0.75, 0.5, 0.34][pick[0] % 4]
         G = graph_from_json(base["graph"])
     try:
         rb = run_model(base, tier)
